@@ -18,7 +18,8 @@ RULE = ("filters from the relational grammar (scalar predicates on the parent; t
         "parents, no duplicates, and Django = SQLAlchemy. Exhaustive mini-tier: every collection x {any(), "
         "any(p), all(p), not any(), not all(p)} x every instance shape with <= 2 parents and 0-2 children. "
         "Non-trivial: the filter has a path or lambda and the instance has a parent with an empty collection "
-        "or a NULL foreign key on a navigated relationship; distinct by (filter, instance).")
+        "or a NULL foreign key on a navigated relationship; distinct by (filter, instance)."
+        " Roots: Item (parts, tags, owner, home), Owner (items, org, region, home) and Tag (items), so that one-to-many children with a NULL foreign key ('orphans') and same-named relationships on different models occur.")
 ASSUMPTIONS = ["lambda bodies range over non-null child columns, so they are never NULL",
                "SQLite is the only engine; both ORMs load the same instance"]
 
